@@ -124,3 +124,37 @@ package scheduler
 //@   loop 0 invariant flag-is-not-stale: isDrained == (w.terminating || ufb("matchesadrain", scq.drains, workerID)) && w == old(w) && scq == old(scq) && bq == old(bq) && workerID == old(workerID)
 //@   at call assignNextQueuedTask#1 assert never-hands-work-to-a-terminating-worker: !w.terminating
 //@   at call assignNextQueuedTask#2 assert never-hands-work-to-a-terminating-worker: !w.terminating
+
+// ---------------------------------------------------------------------------
+// Stale workers are always detected (C06, C02)
+//
+// While a worker synchronizes, its clean-up entry is taken out of the clean-up
+// queue; whatever way Synchronize returns after that, the entry is put back,
+// and its deadline counts from the scheduler's time at the end of the call
+// (which may have blocked), not from its beginning. Otherwise a vanished
+// worker is never (or too early) declared stale and the waiters of its task
+// never (or too early) get their final UNAVAILABLE message.
+//
+// armedat(k): deadline with which clean-up key variable k was last armed.
+// disarmed(w): this call took worker w's clean-up entry out of the queue.
+//@ ghost map armedat(ref) int
+//@ ghost map disarmed(ref) int zero
+
+//@ func (*cleanupQueue).add
+//@   props C06
+//@   trusted -- abstract contract of the clean-up heap: container/heap with the index-mirroring Swap is not verified against it
+//@   modifies *key, armedat[key]
+//@   panics_if *key != 0
+//@   ensures armed-with-the-given-deadline: *key != 0 && armedat(key) == timestamp
+//@ func (*cleanupQueue).remove
+//@   props C06
+//@   trusted -- abstract contract of the clean-up heap: removing an entry clears the key variable the entry points to and renumbers others; modelled as: every clean-up key variable may change
+//@   pure
+//@   havoc M:Int:pkg/scheduler.cleanupKey
+
+//@ func (*InMemoryBuildQueue).Synchronize
+//@   props C06
+//@   at call remove#2 ghostset disarmed[w] = 1
+//@   ensures a-disarmed-worker-is-always-rearmed: w != nil && disarmed(w) == 1 ==> w.cleanupKey != 0
+//@   ensures deadline-counts-from-the-end-of-the-call: w != nil && disarmed(w) == 1 ==>
+//@             armedat(&w.cleanupKey) == bq.now + bq.configuration.WorkerWithNoSynchronizationsTimeout
